@@ -22,8 +22,8 @@ Extraction "model.ml"
   info default_node from_val view_deserialize view_deserialize_scoped byte_len ser_node
   view_get union_selector union_value read_val list_length
   tm_step tm_init
-  ro_iter ix_iter get_all
-  flat_enc flat_len flat_decode flat_htr flat_fixed_len
+  ro_iter ix_iter get_all view_from_backing_ok
+  flat_enc flat_len flat_decode flat_htr flat_fixed_len w_offset
   print_dec parse_uint uint_unmarshal_json uint_unmarshal_text uint_unmarshal_json_cast
   uint_marshal_text uint_marshal_json u256_unmarshal_text u256_unmarshal_json
   bytes_marshal_text fixed_bytes_unmarshal big_unmarshal
